@@ -57,6 +57,9 @@ def stepC01 (toks : List String) : Option String :=
     let q ← qtyOf q; let w ← w.toNat?; let d ← d.toNat?; let l ← parseRngs l
     pure (showBool (validB q w d l))
   -- the ranges are unions of cells of depth `d` (alignment and domain only: canonicity is judged elsewhere)
+  | ["st_union_elem_aligned", q, w, d, l] => do
+    let q ← qtyOf q; let w ← w.toNat?; let d ← d.toNat?; let l ← parseRngs l
+    pure (showBool (boundedByB (q.nCellsMax w) l && alignedB (q.cellSize w d) l))
   | ["aligned", q, w, d, l] => do
     let q ← qtyOf q; let w ← w.toNat?; let d ← d.toNat?; let l ← parseRngs l
     pure (showBool (boundedByB (q.nCellsMax w) l && alignedB (q.cellSize w d) l))
